@@ -526,6 +526,23 @@ impl Exec {
             .iter()
             .filter(|k| !definitely_expired.contains(*k) && !maybe_expired.contains(*k))
             .collect();
+        // a prune may only evict while the cache is over its size: when even the
+        // largest possible number of records left after expiry fits, a live
+        // record that disappears has neither expired nor been evicted (C05)
+        if before.len() - definitely_expired.len() <= self.desired {
+            for k in &removed_live {
+                self.find(
+                    "live-entry-vanished",
+                    format!(
+                        "{what} removed {} {} although it had not expired and the cache was not over its size ({} records, size {})",
+                        show_name(&k.0),
+                        show_data(&k.1),
+                        before.len() - definitely_expired.len(),
+                        self.desired
+                    ),
+                );
+            }
+        }
         if expired < removed_expired || expired > removed_expired + removed_maybe {
             self.find(
                 "prune-expired-count",
@@ -1066,7 +1083,10 @@ pub fn search(
         Box::new(builder.spawn_bfs().join()) as Box<dyn CheckerDyn>
     };
     wd_stop.store(true, Ordering::Relaxed);
-    let timed_out = started.elapsed() >= timeout && !checker.done();
+    // stateright closes its job broker at the deadline and then reports
+    // `is_done()`, so the only witness of a cut search is the clock: a search
+    // that was still running at the deadline counts as cut
+    let timed_out = started.elapsed() >= timeout;
     let counterexample = checker.counterexample().map(|hist| {
         let ops = model.ops(&hist);
         let f = execute(cfg, &ops).finding.expect("discovery must reproduce (determinism)");
